@@ -68,8 +68,8 @@ def oracle(ctx, case, steps, ctor_err):
                         # an atom shared with another instance of the same fragment name maps twice
                         if tk not in copy_nodes:
                             copy_nodes[tk] = n
-            if len(fine.nodes) and any(len(fine.nodes[n].get('fragid', [])) > 1 for n in members.get(k, [])):
-                continue     # shared atoms: stated on `mapping` in C10
+            if len(fine.nodes) and any(len(set(fine.nodes[n].get('fragid', []))) > 1 for n in members.get(k, [])):
+                continue     # atoms shared with ANOTHER coarse node: stated on `mapping` in C10
             if sorted(copy_nodes) != sorted(x['k'] for x in t['n']):
                 ctx.fail(suites.slim(case), f'level {lvl}: coarse node {k} ({names[k]}): template atoms '
                                             f'{sorted(x["k"] for x in t["n"])} but copies of {sorted(copy_nodes)}')
